@@ -653,6 +653,15 @@ def handle : List String → String
         | .panic => "panic"
         | .hang => "hang"
         | .ok t => s!"pal={showPalette t.buildPalette}"
+  | ["pal", h, w, k, px] =>
+    match h.toNat?, w.toNat?, k.toNat?, parseColors px with
+    | some h, some w, some k, some px =>
+      match fromImage px h w k with
+      | .panic => "panic"
+      | .hang => "hang"
+      | .ok none => "none"
+      | .ok (some p) => s!"pal={showColors p.colors}"
+    | _, _, _, _ => "bad-op"
   | ["quant", h, w, k, d, px] =>
     match h.toNat?, w.toNat?, k.toNat?, parseColors px with
     | some h, some w, some k, some px =>
